@@ -31,17 +31,37 @@ theorem COk.of_ok {c : Consts} (h : c.ok = true) : COk c := by
   obtain ⟨⟨⟨⟨⟨⟨⟨⟨⟨⟨⟨⟨⟨⟨⟨⟨⟨h1, h2⟩, h3⟩, h4⟩, h5⟩, h6⟩, h7⟩, h8⟩, h9⟩, h10⟩, h11⟩, h12⟩, h13⟩, h14⟩, h15⟩, h16⟩, h17⟩, h18⟩ := h
   exact ⟨h1, h2, h3, h4, h5, h6, h7, h8, h9, h10, h11, h12, h13, h14, h15, h16, h17, h18⟩
 
-theorem flagsByte_lt {c : Consts} (hc : COk c) (e o : Bool) : flagsByte c e o < 256 := by
+/-- the part of the side conditions that concerns the flags byte -/
+structure FlagsOk (c : Consts) : Prop where
+  ro : c.fReadOnly < 8
+  em : c.fEmpty < 8
+  co : c.fCompact < 8
+  od : c.fOrdered < 8
+  ro_em : c.fReadOnly ≠ c.fEmpty
+  ro_co : c.fReadOnly ≠ c.fCompact
+  ro_od : c.fReadOnly ≠ c.fOrdered
+  em_co : c.fEmpty ≠ c.fCompact
+  em_od : c.fEmpty ≠ c.fOrdered
+  co_od : c.fCompact ≠ c.fOrdered
+
+theorem COk.flags {c : Consts} (h : COk c) : FlagsOk c :=
+  ⟨h.ro, h.em, h.co, h.od, h.ro_em, h.ro_co, h.ro_od, h.em_co, h.em_od, h.co_od⟩
+
+theorem flagsByte_lt' {c : Consts} (hc : FlagsOk c) (e o : Bool) : flagsByte c e o < 256 := by
   unfold flagsByte
   exact or_lt_256 _ _ (or_lt_256 _ _ (or_lt_256 _ _ (two_pow_lt_256 _ hc.co) (two_pow_lt_256 _ hc.ro)) (flagBit_lt _ _ hc.em)) (flagBit_lt _ _ hc.od)
 
-theorem flagsByte_empty {c : Consts} (hc : COk c) (e o : Bool) : (flagsByte c e o).testBit c.fEmpty = e := by
+theorem flagsByte_empty' {c : Consts} (hc : FlagsOk c) (e o : Bool) : (flagsByte c e o).testBit c.fEmpty = e := by
   have h1 := hc.em_co; have h2 := hc.ro_em; have h3 := hc.em_od
   simp [flagsByte, Nat.testBit_or, testBit_flagBit, Ne.symm h1, h2, Ne.symm h3]
 
-theorem flagsByte_ordered {c : Consts} (hc : COk c) (e o : Bool) : (flagsByte c e o).testBit c.fOrdered = o := by
+theorem flagsByte_ordered' {c : Consts} (hc : FlagsOk c) (e o : Bool) : (flagsByte c e o).testBit c.fOrdered = o := by
   have h1 := hc.co_od; have h2 := hc.ro_od; have h3 := hc.em_od
   simp [flagsByte, Nat.testBit_or, testBit_flagBit, h1, h2, h3]
+
+theorem flagsByte_lt {c : Consts} (hc : COk c) (e o : Bool) : flagsByte c e o < 256 := flagsByte_lt' hc.flags e o
+theorem flagsByte_empty {c : Consts} (hc : COk c) (e o : Bool) : (flagsByte c e o).testBit c.fEmpty = e := flagsByte_empty' hc.flags e o
+theorem flagsByte_ordered {c : Consts} (hc : COk c) (e o : Bool) : (flagsByte c e o).testBit c.fOrdered = o := flagsByte_ordered' hc.flags e o
 
 /-! ### the version-3 body -/
 
